@@ -84,7 +84,7 @@ def _events(kind, ndim, variant, tier, dims):
         if th:
             pairs += [(b, a) for a, b in pairs]
         for a, b in pairs:
-            for k in ([1, -1, 2] if not th else [1, -1, 2, 3, 5]):
+            for k in ([1, -1, 2, 4] if not th else [1, -1, 2, 4, 0, 3, 5, -4]):
                 for r in ([None, far] if th or (a, b) == pairs[0] else [None]):
                     ev.append(("rotate90", (a, b, k, r)))
     forms = []
@@ -97,15 +97,29 @@ def _events(kind, ndim, variant, tier, dims):
     return forms
 
 
-def _malformed(kind, ndim, dims):
+def _malformed(kind, ndim, dims, L=1.0):
     m = [("scale", (0, None)), ("scale", (tuple([1.0] * (ndim + 1)), None)), ("scale", ("2", None)),
          ("scale", (tuple([0.0] + [2.0] * (ndim - 1)), None)) if ndim > 1 else ("scale", (0.0, None)),
          ("scale", (2, tuple([0.0] * (ndim + 1)))),
+
          ("translate", (tuple([1.0] * (ndim + 1)),)), ("translate", ("a",)), ("translate", (tuple(["a"] * ndim),))]
     if ndim >= 2:
         m += [("rotate90", (dims[0], dims[0], 1, None)), ("rotate90", (dims[0], dims[1], 1.5, None)),
               ("rotate90", (dims[0], "nonaxis", 1, None)), ("rotate90", (dims[0], dims[1], 1, tuple([0.0] * (ndim + 1))))]
     return m
+
+
+def _borderline(kind, ndim, L, dims):
+    """Steps whose exact image is a proper region but whose float image may collapse (the reference point is so far
+    away that an edge is absorbed).  Refusing is fine, accepting a non-degenerate result is fine - but the copying and
+    the in-place form must AGREE, a refusal must not modify the object, and an accepted result must keep pmin < pmax."""
+    ev = [("scale", (0.5, tuple([1e17 * L] * ndim))), ("scale", (1e-3, tuple([0.0] * (ndim - 1) + [1e14 * L]))),
+          ("scale", (-0.5, tuple([1e17 * L] * ndim)))]
+    if ndim >= 2:
+        ev.append(("rotate90", (dims[0], dims[1], 1, tuple([1e17 * L] * ndim))))
+        ev.append(("rotate90", (dims[1], dims[0], 2, tuple([0.0] * (ndim - 1) + [1e17 * L]))))
+    ev.append(("translate", (tuple([1e17 * L] * ndim),)))
+    return ev
 
 
 def _call(obj, kind, ev, form):
@@ -279,7 +293,7 @@ def unit_histories(ctx):
     start = _start(kind, ndim, variant)
     dims = tuple(_region_of(start).dims)
     events = _events(kind, ndim, variant, ctx.tier, dims)
-    malformed = _malformed(kind, ndim, dims)
+    malformed = _malformed(kind, ndim, dims, _scale_len(ndim, variant))
     ctx.note(f"events:{len(events)}")
 
     def build(hist):
@@ -316,21 +330,28 @@ def unit_histories(ctx):
             _conform(ctx, cls + "/copy-history", res, acc_model, inst, "copy vs exact image of the initial state")
             if not _invariants(ctx, cls + "/copy", res, inst, "after copy"):
                 return None
-            # aliasing: mutating the result in place must not reach the original
-            try:
-                tgt = res
-                L = _scale_len(ndim, variant)
-                tgt.translate(tuple([3 * L] * ndim), inplace=True) if not isinstance(tgt, df.Field) else tgt.mesh.translate(
-                    tuple([3 * L] * ndim), inplace=True)
-                if isinstance(res, df.Field):
-                    res.array[...] += 1
-                    res.valid[...] = ~res.valid
-            except Exception:
-                pass
-            ctx.check()
-            if C.snap(pre) != snap0:
-                ctx.fail(f"{cls}/copy-aliases-original", "in-place change of the copy reached the original", instance=inst)
-                return None
+            # aliasing: NO in-place step on the result may reach the original.  One fresh copy per kind of
+            # in-place step (translate, scale, every odd quarter turn, direct array/validity writes).
+            L = _scale_len(ndim, variant)
+            muts = [("translate", (tuple([3 * L] * ndim),)), ("scale", (tuple(([2.0, -0.5, 3.0])[:ndim]), None))]
+            if ndim >= 2:
+                muts += [("rotate90", (dims[a], dims[b], 1, None)) for a in range(ndim) for b in range(ndim) if a < b]
+            for mop in muts:
+                res2 = _call(pre, kind, ev, "copy")
+                try:
+                    form2 = "mesh-in" if (kind == "field" and mop[0] in ("translate", "scale")) else "in"
+                    _call(res2, kind, mop + (form2,), form2)
+                    if isinstance(res2, df.Field):
+                        res2.array[...] += 1
+                        res2.valid[...] = ~res2.valid
+                except Exception:
+                    pass
+                ctx.step()
+                ctx.check()
+                if C.snap(pre) != snap0:
+                    ctx.fail(f"{cls}/copy-aliases-original", f"in-place {mop[0]} of the copy reached the original",
+                             instance=inst)
+                    return None
             nxt = _call(pre, kind, ev, "copy")
             ctx.observe(_canon(nxt))
             return nxt
@@ -374,6 +395,28 @@ def unit_histories(ctx):
                     if C.snap(o) != s0:
                         ctx.fail(f"{cls}/malformed-modified-object/{form}", f"{mev} changed the object although it "
                                  f"{'raised' if raised else 'returned'}", instance=inst)
+            if kind != "field":
+                for bev in _borderline(kind, ndim, _scale_len(ndim, variant), dims):
+                    oc, oi = build(hist), build(hist)
+                    sc, si = C.snap(oc), C.snap(oi)
+                    ctx.step(2)
+                    ctx.check()
+                    rc, vc = C.raises(_call, oc, kind, bev, "copy")
+                    ri, vi = C.raises(_call, oi, kind, bev, "in")
+                    inst = f"{kind};nd={ndim};var={variant};hist={[(e[0], e[1], e[2]) for e in hist]};ev={bev}"
+                    cls = f"{'Mesh' if kind.startswith('mesh') else 'Region'}.{bev[0]}"
+                    ctx.note(f"borderline:{'refused' if rc else 'accepted'}")
+                    if rc != ri:
+                        ctx.fail(f"{cls}/refusal-differs-between-copy-and-inplace", f"{bev}: copying form "
+                                 f"{'raised' if rc else 'returned'}, in-place form {'raised' if ri else 'returned'}", instance=inst)
+                    if C.snap(oc) != sc:
+                        ctx.fail(f"{cls}/copy-modified-original", f"{bev}", instance=inst)
+                    if ri and C.snap(oi) != si:
+                        ctx.fail(f"{cls}/refused-but-modified", f"{bev}", instance=inst)
+                    if not ri:
+                        _invariants(ctx, cls + "/inplace", oi, inst, f"after borderline {bev}")
+                    if not rc:
+                        _invariants(ctx, cls + "/copy", vc, inst, f"after borderline {bev}")
         return events
 
     # the first event is a top-level choice (sharding): None = only the start state and its
